@@ -26,7 +26,7 @@ inductive Pc where
   | retC                                                   -- op about to return
   | starting                                               -- in the start loop
   | fired (i ch : Nat) (arg : Int) (cx : Ctx)              -- receiver entered, before `wa.sig`
-  | sigd (cx : Ctx) (note : Nat)                           -- latch access done; note: 0 none, 1 store, 2 latch expected
+  | sigd (i : Nat) (cx : Ctx) (note : Nat)                 -- latch access done; note: 0 none, 1 store, 2 latch expected
   | last (cx : Ctx) (zeroSeen : Bool)                      -- counter reached zero
   | fin
   deriving DecidableEq, Repr
@@ -57,11 +57,20 @@ structure St where
   pc : Nat → Pc
   delivered : Nat                      -- history: signals sent to the connected receiver
   result : Option (Nat × Int)
+  /-- history (never tested by `step`) -/
+  compl : Nat → Option (Nat × Int)     -- the completion (channel, payload) of predecessor `i`
+  stage : Nat → Nat                    -- of predecessor `i`'s receiver call: 0 not entered, 1 entered,
+                                       -- 2 latch access done, 3 counter decremented
+  who : Nat → Nat                      -- the thread that runs predecessor `i`'s receiver call
+  first : Option (Nat × Nat × Int)     -- (i, channel, payload) of the first non-value completion
+                                       -- to reach the latch
+  lastT : Nat                          -- the thread whose decrement reached zero
 
 def init (n : Nat) : St :=
   { n := n, armedTo := 0, pending := fun _ => none, firedI := fun _ => false, remaining := n,
     latch := false, err := none, slots := fun _ => none, pc := fun _ => .idle, delivered := 0,
-    result := none }
+    result := none, compl := fun _ => none, stage := fun _ => 0, who := fun _ => 0, first := none,
+    lastT := 0 }
 
 /-- The start loop runs until it meets a leaf with a pending completion (which then fires
     inline) or the end: the new value of `armedTo`. -/
@@ -80,6 +89,20 @@ def decision (s : St) : Nat × Int :=
     | some e => (2, e)
     | none => (1, 0)
 
+/-- the values sent by the predecessors -/
+def vals (s : St) : Nat → Option Int := fun i =>
+  match s.compl i with
+  | some (_, a) => some a
+  | none => none
+
+/-- What `when_all` must deliver, as a function of the history alone: the first non-value
+    completion to reach the latch decides (stopped, or that error); if there is none, the values
+    of all predecessors in predecessor order. -/
+def decisionG (s : St) : Nat × Int :=
+  match s.first with
+  | none => (0, enc (vals s) s.n)
+  | some (_, ch, e) => if ch = 1 then (1, 0) else (2, e)
+
 /-- After a receiver call returns: the producer's op returns, the starter goes on with the loop. -/
 def afterCall (s : St) (t : Nat) (cx : Ctx) : St :=
   match cx with
@@ -97,14 +120,18 @@ def step (s : St) : Ev → Option St
       else some { s with pending := upd s.pending i (some (ch, arg)), pc := upd s.pc t .retC }
     else none
   | .fire t i ch arg =>
-    if s.firedI i = false ∧ i < s.armedTo then
+    if s.firedI i = false ∧ i < s.armedTo ∧ i < s.n then
       match s.pc t with
       | .completing j =>
-        if i = j then some { s with firedI := upd s.firedI i true, pc := upd s.pc t (.fired i ch arg .producer) }
+        if i = j then some { s with firedI := upd s.firedI i true, pc := upd s.pc t (.fired i ch arg .producer),
+                                    compl := upd s.compl i (some (ch, arg)), stage := upd s.stage i 1,
+                                    who := upd s.who i t }
         else none
       | .starting =>
         if i + 1 = s.armedTo ∧ s.pending i = some (ch, arg) then
-          some { s with firedI := upd s.firedI i true, pc := upd s.pc t (.fired i ch arg .starter) }
+          some { s with firedI := upd s.firedI i true, pc := upd s.pc t (.fired i ch arg .starter),
+                        compl := upd s.compl i (some (ch, arg)), stage := upd s.stage i 1,
+                        who := upd s.who i t }
         else none
       | _ => none
     else none
@@ -113,28 +140,33 @@ def step (s : St) : Ev → Option St
     | .fired i ch arg cx =>
       if ch' = ch then
         if ch = 0 then
-          if s.latch then some { s with pc := upd s.pc t (.sigd cx 0) }
-          else some { s with slots := upd s.slots i (some arg), pc := upd s.pc t (.sigd cx 1) }
-        else if ch = 1 then some { s with latch := true, pc := upd s.pc t (.sigd cx 0) }
+          if s.latch then some { s with stage := upd s.stage i 2, pc := upd s.pc t (.sigd i cx 0) }
+          else some { s with slots := upd s.slots i (some arg), stage := upd s.stage i 2,
+                             pc := upd s.pc t (.sigd i cx 1) }
+        else if ch = 1 then
+          some { s with latch := true, stage := upd s.stage i 2, first := if s.first = none then some (i, ch, arg) else s.first,
+                        pc := upd s.pc t (.sigd i cx 0) }
         else
-          if s.latch then some { s with pc := upd s.pc t (.sigd cx 0) }
-          else some { s with latch := true, err := some arg, pc := upd s.pc t (.sigd cx 2) }
+          if s.latch then some { s with stage := upd s.stage i 2, pc := upd s.pc t (.sigd i cx 0) }
+          else some { s with latch := true, err := some arg, stage := upd s.stage i 2,
+                             first := if s.first = none then some (i, ch, arg) else s.first, pc := upd s.pc t (.sigd i cx 2) }
       else none
     | _ => none
   | .store t _ =>
     match s.pc t with
-    | .sigd cx 1 => some { s with pc := upd s.pc t (.sigd cx 0) }
+    | .sigd i cx 1 => some { s with pc := upd s.pc t (.sigd i cx 0) }
     | _ => none
   | .latch t =>
     match s.pc t with
-    | .sigd cx 2 => some { s with pc := upd s.pc t (.sigd cx 0) }
+    | .sigd i cx 2 => some { s with pc := upd s.pc t (.sigd i cx 0) }
     | _ => none
   | .dec t =>
     match s.pc t with
-    | .sigd cx 0 =>
+    | .sigd i cx 0 =>
       if s.remaining = 0 then none
-      else if s.remaining = 1 then some { s with remaining := 0, pc := upd s.pc t (.last cx false) }
-      else some (afterCall { s with remaining := s.remaining - 1 } t cx)
+      else if s.remaining = 1 then
+        some { s with remaining := 0, stage := upd s.stage i 3, lastT := t, pc := upd s.pc t (.last cx false) }
+      else some (afterCall { s with remaining := s.remaining - 1, stage := upd s.stage i 3 } t cx)
     | _ => none
   | .zero t l e =>
     match s.pc t with
